@@ -37,3 +37,8 @@ CHECKS["C16"] = {
          "for every L <= 12293. (b) Exhaustive bounded exploration (M2) of MockProvider against a reference tree: error classes, info/exists/listdir/download agreement, id "
          "stability, hash == hash_data, events for every mutation, identity check on connect. FileSystemProvider directory operations on a real directory are outside the technique.",
  "technique": "bounded symbolic execution of the hash kernel over z3 integer intervals (QF_LIA validity); solver-enumerated MockProvider call sequences against a reference tree; replay on real files"}
+CHECKS["C19"] = {
+ "text": "Exhaustive bounded exploration with solver-enumerated choices (M2) of the real HierarchicalCache: all 2-call (thorough: 3-call on a smaller pool) sequences over 7 operations, "
+         "6 paths, 3 ids + None, both case modes; structural invariants (acyclic, parent/child consistent, exact id index, id uniqueness, id<->path inverse) and a dictionary "
+         "model are checked after every call, also after calls the cache rejects.",
+ "technique": "bounded exhaustive exploration; call kind/path/id/type are z3 integer choices enumerated by solver-decided branching over the real HierarchicalCache; structural walk + dictionary model oracle"}
